@@ -214,14 +214,33 @@ func fmod(t *rt.Thread, c *rt.GoCont) (rt.Cont, error) {
 	if err := c.CheckNArgs(2); err != nil {
 		return nil, err
 	}
-	x, _ := rt.ToNumberValue(c.Arg(0))
-	y, _ := rt.ToNumberValue(c.Arg(1))
-	res, ok, err := rt.Mod(x, y)
-	if !ok {
-		err = errors.New("expected numeric arguments")
+	// Unlike the % operator, fmod rounds the quotient towards zero, so the
+	// result has the sign of x (as C's fmod).
+	nx, fx, tx := rt.ToNumber(c.Arg(0))
+	ny, fy, ty := rt.ToNumber(c.Arg(1))
+	if tx == rt.NaN || ty == rt.NaN {
+		return nil, errors.New("expected numeric arguments")
 	}
-	if err != nil {
-		return nil, err
+	var res rt.Value
+	if tx == rt.IsInt && ty == rt.IsInt {
+		switch ny {
+		case 0:
+			return nil, errors.New("attempt to perform 'n%0'")
+		case -1:
+			// Avoids the overflow of math.mininteger / -1
+			res = rt.IntValue(0)
+		default:
+			// Go's % operator truncates the quotient
+			res = rt.IntValue(nx % ny)
+		}
+	} else {
+		if tx == rt.IsInt {
+			fx = float64(nx)
+		}
+		if ty == rt.IsInt {
+			fy = float64(ny)
+		}
+		res = rt.FloatValue(math.Mod(fx, fy))
 	}
 	return c.PushingNext1(t.Runtime, res), nil
 }
